@@ -37,6 +37,13 @@ def read_collection(grp, with_attrs=True):
     return out
 
 
+def _norm_attr(v):
+    """numeric attributes compare by value (130 == 130.0): HDF5 attribute type is not content"""
+    if isinstance(v, float) and v == v and v not in (float("inf"), float("-inf")) and float(v).is_integer():
+        return int(v)
+    return v
+
+
 VOLATILE_ATTRS = {"creation-date", "generated-by", "format-url"}
 
 
@@ -61,7 +68,7 @@ def content_digest(grp, tables=("chroms", "bins", "pixels", "indexes"), attrs=Tr
         for k in sorted(rc["attrs"]):
             if k in skip_attrs:
                 continue
-            m.update(f"@{k}={rc['attrs'][k]!r}|".encode())
+            m.update(f"@{k}={_norm_attr(rc['attrs'][k])!r}|".encode())
     return m.hexdigest()
 
 
@@ -268,3 +275,23 @@ def validate_collection(grp, expect=None):
 def validate_uri(path, group="/", expect=None):
     with h5py.File(path, "r") as f:
         return validate_collection(f[group], expect)
+
+
+def diff_uris(a, b, ga="/", gb="/"):
+    """Human-readable differences between two collections (for witnesses)."""
+    out = []
+    with h5py.File(a, "r") as fa, h5py.File(b, "r") as fb:
+        ra, rb = read_collection(fa[ga]), read_collection(fb[gb])
+    for tbl in ("chroms", "bins", "pixels", "indexes"):
+        for col in sorted(set(ra[tbl]) | set(rb[tbl])):
+            x, y = ra[tbl].get(col), rb[tbl].get(col)
+            if x is None or y is None:
+                out.append(f"{tbl}/{col}: present in only one")
+            elif x.dtype.kind != y.dtype.kind or len(x) != len(y) or x.tolist() != y.tolist():
+                out.append(f"{tbl}/{col}: {x.dtype}{x.tolist()[:12]} vs {y.dtype}{y.tolist()[:12]}")
+    for k in sorted(set(ra["attrs"]) | set(rb["attrs"])):
+        if k in VOLATILE_ATTRS:
+            continue
+        if repr(_norm_attr(ra["attrs"].get(k))) != repr(_norm_attr(rb["attrs"].get(k))):
+            out.append(f"@{k}: {ra['attrs'].get(k)!r} vs {rb['attrs'].get(k)!r}")
+    return out
